@@ -475,6 +475,12 @@ pub fn value_universe() -> Vec<Value> {
         Value::id("x"),
         Value::enumeration(0, vec![("a".to_string(), 0), ("b".to_string(), 1)]),
         Value::enumeration(1, vec![("a".to_string(), 0), ("b".to_string(), 1)]),
+        // explicit codes that are not listed in increasing order (decreasing, shuffled, negative)
+        Value::enumeration(30, vec![("critical".to_string(), 30), ("high".to_string(), 20), ("low".to_string(), 0)]),
+        Value::enumeration(20, vec![("critical".to_string(), 30), ("high".to_string(), 20), ("low".to_string(), 0)]),
+        Value::enumeration(0, vec![("critical".to_string(), 30), ("high".to_string(), 20), ("low".to_string(), 0)]),
+        Value::enumeration(1, vec![("x".to_string(), 5), ("y".to_string(), 1), ("z".to_string(), 3), ("t".to_string(), -2)]),
+        Value::enumeration(-2, vec![("x".to_string(), 5), ("y".to_string(), 1), ("z".to_string(), 3), ("t".to_string(), -2)]),
     ];
     let base: Vec<Value> = vec![prim[1].clone(), prim[4].clone(), prim[5].clone(), prim[13].clone(), prim[17].clone(), prim[25].clone()];
     let mut comp = vec![Value::none()];
@@ -573,6 +579,11 @@ fn part_b(ctx: &Ctx) -> Report {
             Ok(t) => {
                 if !strict_member(&t, v) {
                     head.violation(format!("law=own-type value={}", vkind(v)), "types/own-type", json!({"value": v.to_string(), "type": t.to_string(), "library_contains": lib_contains(&t, v)}));
+                }
+                // ... and by the library's own membership test (the one its callers use)
+                let lc = lib_contains(&t, v);
+                if lc != "true" {
+                    head.violation(format!("law=own-type(library-contains) value={} answer={}", vkind(v), lc.chars().take(40).collect::<String>()), "types/own-type", json!({"value": v.to_string(), "type": t.to_string(), "library_contains": lc}));
                 }
             }
             Err(p) => head.violation(format!("law=own-type panic@{}", p.site()), "types/own-type", json!({"value": v.to_string()})),
